@@ -102,6 +102,10 @@ CLAIMED = {
             'EngineImpl::now_ has no writer outside EngineImpl::solve in any of the 78 units that can name it; in solve every path advances the clock only by now_ += time_delta after excluding time_delta < 0 since its last assignment, and every other write is a save/displace/restore triple closed before any exit; timers fire while clock >= date, the fired timer is the popped one, Timer::set and its template wrapper key the heap with the unmodified date; kill time and sleep durations reach Timer::set / set_max_duration unchanged (CpuCas01 only raises positive durations to the timing precision); run() never asks solve() to go beyond the next timer; finish times are stamped with the clock and copied to the activity. Valid for every program and every sequence of events.',
             'The value the models return as next event (hence the actual dates of completions) and sub-precision behaviour are not decided.',
             'DESIGN.md §3 C03'),
+    'C11': ('container discipline on the on_exit vector, CFG path rules (join, kill timer, daemon set), dominator-based guard on the daemon-killing loop, finite-state abstract exploration of ActorImpl::yield, sibling agreement of suspend()/resume() (contradiction rule on null tests)',
+            "on_exit callbacks are only appended, traversed only by cleanup_from_self with reverse iterators and reset under the same guard, hence run once in reverse order for every exit cause; join() finishes the sleep created with the caller's timeout both when the target is already dying and from a callback appended to the target's on_exit, and the S4U wrapper answers at once for a dead target; the kill timer calls exit() and reschedules; the daemon-killing loop is dominated by actor_list_.size() == daemons_.size() and the daemon set/flag change only together in daemonize/undaemonize; after every context switch yield() re-yields while suspended_, SleepImpl::finish re-suspends instead of answering, ActorImpl::suspend/resume visit every activity, and suspend()/resume() of each activity class agree on the null test of the model action.",
+            'Dates (kill time, join timeout) are C03/C12; whether a sleep keeps elapsing while its actor is suspended is a modelling choice that is not decided.',
+            'DESIGN.md §3 C11'),
 }
 
 NOT_APPLICABLE = {
